@@ -435,7 +435,8 @@ def rollbackRemoved (w : WS) : M Unit := do
   if !ok then return ()
   let s ← getS
   let hs := ids.filterMap s.reg
-  let undo := (hs.filter (fun h => h.deleted || h.wip > 0)).map (fun h => { h with deleted := false, wip := 0 })
+  -- the removal mark is undone; a handle that still carries an earlier commit's obsolete id keeps the "expired" marker 1
+  let undo := (hs.filter (fun h => h.deleted || h.wip > 0)).map (fun h => { h with deleted := false, wip := if h.bothInUse then 1 else 0 })
   let r ← get
   if (keysOrEmpty r).isEmpty then
     let _ ← attempt (call .regUpdate (.handles (undo)) (fun s => s.setRegs undo))
